@@ -1,8 +1,8 @@
 CONSTANTS
   K = 2
   EchoBuf = 1
-  NIns = {0, 1, 4, 6}
-  NOuts = {0, 1, 3}
+  NIns = {0, 2, 6}
+  NOuts = {0, 3}
   NErrs = {0, 3}
   WChunks = {0, 2}
   RChunks = {0, 1}
@@ -12,5 +12,6 @@ CONSTANTS
   Drivers = {"iour", "poll"}
   Impls = {"blocking", "pidfd"}
   Families = {"echo", "consumer", "producer", "exit", "status", "held"}
+  BlockingChildPipes = FALSE
 SPECIFICATION Spec
-INVARIANTS Emit TypeOK InOrder Conservation WaitSafe CompleteAtEnd NoDeadlock LiveAtTerminal
+INVARIANTS Emit TypeOK InOrder Conservation WaitSafe CompleteAtEnd NoDeadlockStrict LiveAtTerminal
